@@ -233,7 +233,10 @@ class Exec:
                 sub.step(s2)
             parent = self.node(st[1])
             try:
-                mapping = h.insert_hugr(sub.h, parent)
+                if parent.idx == h.root.idx and len(st[2]) % 2:
+                    mapping = h.insert_hugr(sub.h)   # "parent: defaults to the root"
+                else:
+                    mapping = h.insert_hugr(sub.h, parent)
             except ParentBeforeChild:
                 self.ended = "ParentBeforeChild"
                 return
@@ -347,7 +350,10 @@ def apply_history(h, hist, valid_ports_only=False):
                 if sub.applicable(s2):
                     sub.step(s2)
             try:
-                mapping = h.insert_hugr(sub.h, handles[st[1]])
+                if handles[st[1]].idx == h.root.idx and len(st[2]) % 2:
+                    mapping = h.insert_hugr(sub.h)   # "parent: defaults to the root"
+                else:
+                    mapping = h.insert_hugr(sub.h, handles[st[1]])
             except ParentBeforeChild:
                 return applied
             handles.extend(mapping[n] for n in sub.h)
